@@ -1,0 +1,23 @@
+//go:build verif
+
+package historyprunner
+
+// Contracts for gocv (contract-based deductive verification, /verif).
+
+// ---- resuming a history-prune migration: the pinned cut-off survives the restart (C18) -------------
+// Before restores the three persisted words; once a state exists the cut-off is PINNED: Migrate
+// must not recompute it from the (possibly changed) configuration, because block data below the
+// old cut-off has already been removed.
+//@ ghost func be64of(b []byte) uint64
+//@ extern func encoding/binary.(bigEndian).Uint64
+//@   ensures result == be64of(b)
+//@ extern func fmt.Errorf
+//@   ensures result != nil
+//@ func (*Migrator).Before
+//@   props C18
+//@   arith int
+//@   requires m != nil
+//@   modifies m.stagerProgress, m.restorerProgress, m.oldestBlockKept, m.floorPinned
+//@   ensures fresh_run_untouched: len(state) == 0 ==> result == nil && m.floorPinned == old(m.floorPinned) && m.oldestBlockKept == old(m.oldestBlockKept) && m.stagerProgress == old(m.stagerProgress) && m.restorerProgress == old(m.restorerProgress)
+//@   ensures wrong_size_rejected: len(state) != 0 && len(state) != 24 ==> result != nil
+//@   ensures resumed_pinned: len(state) == 24 ==> result == nil && m.floorPinned && m.stagerProgress == be64of(state[0:8]) && m.restorerProgress == be64of(state[8:16]) && m.oldestBlockKept == be64of(state[16:24])
